@@ -534,6 +534,10 @@ def run(chk):
     nr = hierarchy_relations(chk, db, "C09-D4.relations")
     chk.floor("C09-D4.relations", nr, 4, "local polynomial rules with closed-form hierarchy relations")
 
+    from rules import seqnodes
+    nsq = seqnodes.seqnodes_rule(chk, db, "C09-D11.nodes")
+    chk.floor("C09-D11.nodes", nsq, 2, "index sets converted to coordinates in GridSequence")
+
     # ------------------------------------------------------------------ D10 registrations that hold delivered samples survive a request for candidates
     chk.rule("C09-D10.keep", "a request for candidates re-registers the candidate tensors; the routine that forgets the old registrations erases a record only under a condition that looks at "
                              "its delivered-sample flags (`loaded`): a record that already holds samples is the only way those samples are found when the tensor becomes admissible, "
